@@ -143,11 +143,11 @@ def obligations(tier):
                   harness='C01_pfile', func='sul_fields_seq', timeout=170 if q else 900, parts=11))
     obs.append(Ob('sul_max_record_length_reported', 'ch', 'maximum record length field: 2 fixed + 3 symbolic characters (blank/digit), value 20..16384', ['pFile.StorageUnitLabel.__init__'],
                   harness='C01_pfile', func='sul_fields_max', timeout=170 if q else 900, parts=11))
-    obs.append(Ob('sequential_read_two_segments_quick', 'ch', '2 segments as 1 or 2 logical records, pad 0..2, checksum/encrypted on both, trailing length on the first, 1..2 visible records, symbolic payload bytes',
+    obs.append(Ob('sequential_read_two_segments_quick', 'ch', '2 segments as 1 or 2 logical records, pad 0..2 (second segment also: nothing but 12 pad bytes), checksum/encrypted on both, trailing length on the first, 1..2 visible records, symbolic payload bytes',
                   ['pFile.FileRead._enter/iter_logical_records/_seek_and_read_next_logical_record_segment_header/_read_full_logical_data', 'pFile.VisibleRecord._read',
                    'pFile.LogicalRecordSegmentHeader._read', 'pFile.FileLogicalData'], harness='C01_pfile', func='seq_two_segments_q',
                   timeout=170, stubs=['SymFile'], parts=16, tiers=('quick',)))
-    obs.append(Ob('sequential_read_two_segments', 'ch', '2 segments as 1 or 2 logical records, pad 0..3, checksum/trailing/encrypted flags, 1..2 visible records, symbolic payload bytes',
+    obs.append(Ob('sequential_read_two_segments', 'ch', '2 segments as 1 or 2 logical records, pad 0..3 or a pad-only segment, checksum/trailing/encrypted flags, 1..2 visible records, symbolic payload bytes',
                   ['pFile.FileRead._enter/iter_logical_records/_seek_and_read_next_logical_record_segment_header/_read_full_logical_data', 'pFile.VisibleRecord._read',
                    'pFile.LogicalRecordSegmentHeader._read', 'pFile.FileLogicalData'], harness='C01_pfile', func='seq_two_segments',
                   timeout=1800, stubs=['SymFile'], parts=16, tiers=('thorough',)))
